@@ -124,6 +124,13 @@ Theorem restricted_join_refusals_spec : forall localname room sender privileged 
   rj_verdict_spec privileged d (fst (check_restricted_join localname room sender privileged d)).
 Proof. exact check_restricted_join_spec. Qed.
 
+(* the oracle of the correspondence run for checkRestrictedJoin: every verdict of the model is
+   admissible when judged from the per-room querier answers (power levels of the joined room) *)
+Theorem restricted_join_oracle_sound : forall ver localname room sender d r log,
+  version_check_restricted_join ver localname room sender d = Some (r, log) ->
+  rj_observed_admissible ver d (observe r) = true.
+Proof. exact rj_oracle_sound. Qed.
+
 (* ---------- send_join / invite ---------- *)
 
 (* ideal signature scheme over event values: a signature made verifies, and removing the
@@ -417,6 +424,7 @@ Print Assumptions make_join_template_only_if.
 Print Assumptions make_leave_template_only_if.
 Print Assumptions restricted_join_authoriser_spec.
 Print Assumptions restricted_join_refusals_spec.
+Print Assumptions restricted_join_oracle_sound.
 Print Assumptions send_join_accept_only_if.
 Print Assumptions send_join_accept_only_if_on_event_text.
 Print Assumptions send_join_output_signed_locally.
